@@ -252,6 +252,14 @@ def stripObserve (observe : Bool) (x : Reply) : Reply :=
 /-- a piggybacked response nobody filled in is the Empty ACK -/
 def ackStrip (x : Reply) : Reply := if x.type = ACK ∧ x.code = 0 then emptied x else x
 
+/-- result of the stage that precedes resource selection: an error response `code` (with the flags of the resource
+it is attributed to, if any), silence, or go on with (still a proxy request, request view, path) -/
+inductive Pre where
+  | fail (code : Nat) (fl : Option Nat)
+  | ignore
+  | go (isProxy : Bool) (os : Opts) (path : Bytes)
+  deriving DecidableEq, Repr
+
 end Coap.Server
 
 /-! ## S -/
@@ -340,57 +348,43 @@ def deliver (cfg : Cfg) (rq : Request) (resFlags : Option Nat) (observe : Bool) 
     | none => if mcastSuppressed cfg rq resFlags r then [] else [stripObserve observe r]
 
 /-! ### stages of request processing -/
-inductive Pre where
-  | fail (code : Nat) (fl : Option Nat)
-  | ignore
-  | go (isProxy : Bool) (os : Opts) (path : Bytes)
-  deriving DecidableEq, Repr
-
 /-- the host a proxy request names: Proxy-Uri's authority (oracle) or Uri-Host -/
 def proxyHost (rq : Request) (os : Opts) : Option Bytes :=
   if hasOpt os 35 then (match rq.pu with | .ok h _ => some h | _ => none) else some ((firstOpt os 3).getD [])
 
-/-- RFC 7252 §5.7.2 (proxy options: 5.05 without proxy support; a request naming this endpoint itself is served
-locally) and RFC 8768 §3 (Hop-Limit 1 → 5.08, 0 → 4.00, else decrement; not for requests served locally as the
-proxy's own). `tol`: an unrecognised critical option was tolerated for forwarding (D3). -/
+/-- RFC 7252 §5.10.1 / §5.7.2: the path comes from the Uri-Path options, or from the Proxy-Uri -/
+def pathOf (e : Esc) (rq : Request) (isProxy : Bool) (os : Opts) : Pre :=
+  if hasOpt os 35 then (match rq.pu with | .ok _ p => .go isProxy os p | _ => .ignore)
+  else .go isProxy os (uriPath e os)
+
+/-- RFC 8768 §3: Hop-Limit 1 → 5.08, 0 → 4.00, else decrement; not for requests served as the proxy endpoint's own -/
+def hopLimit (e : Esc) (rq : Request) (isProxy own : Bool) (os : Opts) : Pre :=
+  if own then pathOf e rq isProxy os else
+  match firstOpt os 16 with
+  | none => pathOf e rq isProxy os
+  | some v =>
+    let h := uintOf v % 4294967296
+    if h = 1 then .fail 168 none
+    else if h < 1 ∨ h > 255 then .fail 128 none
+    else pathOf e rq isProxy (setHop (h - 1) os)
+
+/-- RFC 7252 §5.7.2: proxy options — 5.05 without proxy support; a request naming this endpoint itself is served
+locally.  `tol`: an unrecognised critical option was tolerated for forwarding (D3). -/
 def pre (e : Esc) (tbl : Table) (rq : Request) (tol : Bool) (os : Opts) : Pre :=
   let m := rq.msg
   if hasOpt os 39 ∧ ¬ hasOpt os 3 then .fail 130 none else
-  let proxyReq : Bool := hasOpt os 39 || hasOpt os 35
-  -- (still a proxy request, served locally as the proxy endpoint's own)
-  let cls : Pre ⊕ (Bool × Bool) :=
-    if proxyReq then
-      match tbl.prx with
-      | none => .inl (.fail 165 none)
-      | some p =>
-        if 1 ≤ m.code ∧ m.code ≤ 7 ∧ ¬ handlerBit p.mask m.code then .inl (.fail 165 none) else
-        match proxyHost rq os with
-        | none => .inl (.fail 165 none)
-        | some h =>
-          if h.length ≠ 0 ∧ (p.name.length = 0 ∨ h = p.name) then
-            if tol then .inl (.fail 130 (some p.flags)) else .inr (false, true)
-          else .inr (true, false)
-    else .inr (false, false)
-  match cls with
-  | .inl f => f
-  | .inr (isProxy, own) =>
-    let hop : Pre ⊕ Opts :=
-      if own then .inr os else
-      match firstOpt os 16 with
-      | none => .inr os
-      | some v =>
-        let h := uintOf v % 4294967296
-        if h = 1 then .inl (.fail 168 none)
-        else if h < 1 ∨ h > 255 then .inl (.fail 128 none)
-        else .inr (setHop (h - 1) os)
-    match hop with
-    | .inl f => f
-    | .inr os =>
-      let path : Option Bytes :=
-        if hasOpt os 35 then (match rq.pu with | .ok _ p => some p | _ => none) else some (uriPath e os)
-      match path with
-      | none => .ignore
-      | some p => .go isProxy os p
+  if hasOpt os 39 ∨ hasOpt os 35 then
+    match tbl.prx with
+    | none => .fail 165 none
+    | some p =>
+      if 1 ≤ m.code ∧ m.code ≤ 7 ∧ ¬ handlerBit p.mask m.code then .fail 165 none else
+      match proxyHost rq os with
+      | none => .fail 165 none
+      | some h =>
+        if h.length ≠ 0 ∧ (p.name.length = 0 ∨ h = p.name) then
+          if tol then .fail 130 (some p.flags) else hopLimit e rq false true os
+        else hopLimit e rq true false os
+  else hopLimit e rq false false os
 
 /-- resource selection order: exact path → (proxy resource for proxy requests) → unknown handler flagged for
 /.well-known/core → /.well-known/core → unknown handler → DELETE 2.02 → 4.04 -/
@@ -414,28 +408,32 @@ def precond (cfg : Cfg) (rq : Request) (os : Opts) (sel : Sel) : Option Nat :=
   else if cfg.mpr ∧ ¬ flag sel.flags F_HAS_MCAST ∧ rq.mcast then some 133
   else none
 
-/-- the handler registered for `sel` and the method runs once; what it sets is what is sent -/
-def run (e : Esc) (cfg : Cfg) (rq : Request) (os : Opts) (path : Bytes) (sel : Sel) : Outcome :=
+/-- the handler registered for `sel` and the method runs once with the request view; what it sets is what is sent.
+`resp1`: the response it is handed (token echoed, Observe option if a registration was accepted). -/
+def finish (e : Esc) (cfg : Cfg) (rq : Request) (os : Opts) (path : Bytes) (sel : Sel) (observe : Bool) (resp1 : Reply) : Outcome :=
   let m := rq.msg
   let fl := some sel.flags
-  let resp0 : Reply := ⟨.app, respType m.type, 0, m.mid, m.token, [], .bytes []⟩
-  let observe : Bool := sel.observable && (m.code == 1 || m.code == 5) && hasOpt os 6
-  let establish : Bool := observe && (uintOf ((firstOpt os 6).getD []) % 4294967296 == 0)
-  -- RFC 7641 §3.1 + RFC 7959 §2.4 (libcoap: registration only with block 0)
-  let badBlock : Bool := establish && (match (firstOpt os 23).bind block with | some (num, _, _) => num != 0 | none => false)
-  if badBlock then ⟨true, deliver cfg rq fl observe { resp0 with src := .lib, code := 128 }, none⟩ else
-  let resp1 : Reply := if establish then { resp0 with opts := [(6, [2])] } else resp0
   let early : Bool := sel.isPrx && m.type == CON          -- D8
   let pre : List Reply := if early then [lib ACK 0 m.mid []] else []
   match sel.who with
   | none => ⟨true, pre ++ deliver cfg rq fl observe { resp1 with code := 69, opts := [(12, [40])], body := .wellknown }, none⟩
   | some who =>
     let call : Call := ⟨who, m.code, path, uriQuery e os, os, m.payload⟩
-    let code := if rq.verdict.code = 0 then 0 else rq.verdict.code
+    let code := if rq.verdict.code = 0 then resp1.code else rq.verdict.code
     let r : Reply := { resp1 with code := code, body := .bytes rq.verdict.payload, type := if early then CON else resp1.type }
     if ¬ validCode code then ⟨true, pre, some call⟩            -- D10
     else if early ∧ code = 0 then ⟨true, pre, some call⟩
     else ⟨true, pre ++ deliver cfg rq fl observe r, some call⟩
+
+def run (e : Esc) (cfg : Cfg) (rq : Request) (os : Opts) (path : Bytes) (sel : Sel) : Outcome :=
+  let m := rq.msg
+  let resp0 : Reply := ⟨.app, respType m.type, 0, m.mid, m.token, [], .bytes []⟩
+  let observe : Bool := sel.observable && (m.code == 1 || m.code == 5) && hasOpt os 6
+  let establish : Bool := observe && (uintOf ((firstOpt os 6).getD []) % 4294967296 == 0)
+  -- RFC 7641 §3.1 + RFC 7959 §2.4 (libcoap: registration only with block 0)
+  let badBlock : Bool := establish && (match (firstOpt os 23).bind block with | some (num, _, _) => num != 0 | none => false)
+  if badBlock then ⟨true, deliver cfg rq (some sel.flags) observe { resp0 with src := .lib, code := 128 }, none⟩ else
+  finish e cfg rq os path sel observe (if establish then { resp0 with opts := [(6, [2])] } else resp0)
 
 def handle (e : Esc) (cfg : Cfg) (tbl : Table) (rq : Request) (tol : Bool) : Outcome :=
   let m := rq.msg
